@@ -66,6 +66,9 @@ func peerHandshake(conn net.Conn, sw *Switch) (*NodeInfo, error) {
 	if err2 != nil {
 		return nil, err2
 	}
+	if peerNodeInfo.PubKey == nil {
+		return nil, fmt.Errorf("peer sent no public key in its node info")
+	}
 	if err := sw.AuthByCA(peerNodeInfo); err != nil {
 		return nil, err
 	}
